@@ -139,6 +139,9 @@ def features(case):
         if any(s["id"] not in used for s in w["steps"]):
             f.add("dangling-step")
         for s in w["steps"]:
+            if "wf" in s["run"] and any(len(o["src"]) == 1 and "/" not in o["src"][0]
+                                        for o in s["run"]["wf"]["outputs"]):
+                f.add("subworkflow-passthrough-single")
             if s.get("when") and "wf" in s["run"] and any(
                     all(not l["src"] for l in st["in"]) for st in s["run"]["wf"]["steps"]):
                 f.add("conditional-subworkflow-independent-step")
@@ -194,6 +197,9 @@ def diagnose(c, o, clause):
             return "scattered-subworkflow-passthrough"
         if "scattered-subworkflow-independent-step" in fs and d in ("elements-missing", "same-elements-different-nesting"):
             return "scattered-subworkflow-independent-step"
+        if "subworkflow-passthrough-single" in fs and "scattered-subworkflow-passthrough" not in fs \
+                and d in ("value-differs", "elements-differ"):
+            return "subworkflow-passthrough"
         if "conditional-subworkflow-independent-step" in fs and d in ("value-differs", "elements-differ"):
             return "conditional-subworkflow-independent-step"
         if "dup-source" in fs and d in ("elements-missing", "value-differs", "elements-differ",
